@@ -525,6 +525,7 @@ func main() {
 	rep := vh.NewReport(a, "constant expression trees: literal VALUES chosen first (math/big) then formatted in a random form (decimal/0b/0o/legacy-octal/0x with '_' separators; decimal and hex floats incl. .5, 5., exponents up to 1e+-1200; imaginary; rune; string; bool); "+
 		"kind-directed random trees of depth<=4 over + - * / % & | ^ &^ << >> == != < <= > >= && || and unary + - ^ ! and the builtin calls real(x) imag(x) complex(x, y) on untyped constant operands of every numeric kind "+
 		"(3 of 23 inner numeric nodes wherever a float/complex result is admissible: integer/rune/float/complex arguments, n+mi with integer parts, complex arguments written x+0i; also as shift operands and shift counts) "+
+		"and complex constants with a non-zero imaginary part below the float32/float64 subnormal range (1 tree in 40; half of their typed targets are float32/float64/int/uint8, which must reject them) "+
 		"(17% deliberately ill-kinded, including real/imag/complex of strings, booleans, complex(1, 2i), and % & | ^ on real()/imag() results) plus an enumerated list of unparenthesised chains and builtin calls; "+
 		"each tree evaluated (1) by gomacro with OptKeepUntyped, (2) by the exact math/big reference evaluator, (3) by go/types types.Eval; every accepted value is then used in typed contexts "+
 		"`var x T = e` and `T(e)` for T over the 17 basic kinds (3 targets per value, biased to the value's neighbourhood) judged by go/types (accept/reject) and one batched compiled-Go program (values, float bit patterns), "+
@@ -563,6 +564,9 @@ func main() {
 		for j := 0; j < n; j++ {
 			var T string
 			switch {
+			case val != nil && val.K == KComplex && val.im().Sign() != 0 && r.Chance(1, 2):
+				// a non-zero imaginary part, however small, must be rejected by every real type
+				T = []string{"float32", "float64", "float32", "float64", "int", "uint8"}[r.Intn(6)]
 			case val != nil && isNumK(val.K) && r.Chance(3, 4):
 				// numeric targets, biased to the smallest kinds that could hold the value
 				T = typedKinds[r.Intn(15)]
